@@ -5,18 +5,19 @@ check against that tree (VERIF_REPO, normal mode).  Any VIOLATION is a false ala
 machinery (or the patch is not harmless after all — to be investigated).  Results:
 harmless/<AREA>/result.json."""
 import json, os, subprocess, sys, re
-V = "/verif"
+V = os.environ.get("VERIF_ROOT", "/verif")   # where the checks run
+H = "/verif/harmless"
 WT = "/tmp/wt-harmless-%d" % os.getpid()
 
 def sh(cmd, **kw):
     return subprocess.run(cmd, shell=True, stdout=subprocess.PIPE, stderr=subprocess.STDOUT, text=True, **kw)
 
 props = [c["property_id"] for c in json.load(open(V + "/MANIFEST.json"))["checks"]]
-areas = sys.argv[1:] or sorted(os.listdir(V + "/harmless"))
+areas = sys.argv[1:] or sorted(os.listdir(H))
 r = sh("git -C /repo worktree add -q %s HEAD" % WT); assert r.returncode == 0, r.stdout
 try:
     for a in areas:
-        d = "%s/harmless/%s" % (V, a)
+        d = "%s/%s" % (H, a)
         applied = []
         for k in sorted(os.listdir(d)):
             pf = "%s/%s/patch.diff" % (d, k)
